@@ -52,6 +52,11 @@ PROPS = {
     'C15': ('contracts.c15', 'exploration',
             'all proposals of all mutators on a corpus: applicable, '
             'lexically closed, fresh names fresh'),
+    'C18': ('contracts.c18', 'exploration',
+            'determinism reads scan + repeat runs under hash seeds/timing'),
+    'C03': ('contracts.c03', 'exploration',
+            'per-call termination parts and two-step cycle search; whole-run '
+            'termination not decidable by contracts'),
 }
 
 
